@@ -173,6 +173,108 @@ func frontEnds(buf []byte, chunks []int, withSEN bool) []outcome {
 	return out
 }
 
+// senFamily runs the SEN front-ends: sen.Parse on the buffer (the base),
+// sen.ParseReader behind the chunking reader and sen.Tokenizer + Builder.
+func senFamily(buf []byte, chunks []int) []outcome {
+	cp := func() []byte { return append([]byte{}, buf...) }
+	var out []outcome
+	run := func(name string, f func() (any, error)) {
+		o := outcome{name: name}
+		o.pan = vx.Catch(func() { o.val, o.err = f() })
+		out = append(out, o)
+	}
+	run("sen.Parse", func() (any, error) { return (&sen.Parser{}).Parse(cp()) })
+	run("sen.ParseReader", func() (any, error) {
+		return (&sen.Parser{}).ParseReader(&chunkReader{data: cp(), chunks: chunks})
+	})
+	run("sen.Tokenize+Builder", func() (any, error) {
+		h := &builder{}
+		err := (&sen.Tokenizer{OnlyOne: true}).Parse(cp(), h)
+		return h.result(), err
+	})
+	run("sen.TokenizeLoad+Builder", func() (any, error) {
+		h := &builder{}
+		err := (&sen.Tokenizer{OnlyOne: true}).Load(&chunkReader{data: cp(), chunks: chunks}, h)
+		return h.result(), err
+	})
+	return out
+}
+
+// senFeature names the parser-only SEN feature an input uses (function call
+// syntax, '+' string concatenation); it only labels a disagreement that was
+// already found.
+func senFeature(buf []byte) string {
+	for _, b := range buf {
+		if b == '(' || b == ')' {
+			return "function"
+		}
+	}
+	for _, b := range buf {
+		if b == '+' {
+			return "plus"
+		}
+	}
+	return "none"
+}
+
+var c03Templates = [...]string{
+	`{"a":"?"}`, `["?","?"]`, `[tru?,nul?]`, `[1?.?e?]`, `["?\?"]`, `{"?":?}`, `[?,?]`, `[[?],{"a":?}]`,
+	`["\u00??"]`, `-?.?`, `[1,2?3]`, `{"a":"b","?":"d"}`, `[true,null]`, `["ab","c?"]`, `[fals?]`,
+}
+
+// VerifC03_Templates: JSON skeletons with free symbolic bytes ('?') at the
+// interesting places, delivered whole, byte by byte, and split at one
+// symbolic position: all JSON front-ends against oj.Parse, and the SEN
+// family (Parse, ParseReader, Tokenizer, Tokenizer.Load) among themselves.
+func VerifC03_Templates() {
+	tmpl := c03Templates[vx.Choose("template", len(c03Templates))]
+	mode := vx.Choose("chunking", 3)
+	buf := make([]byte, len(tmpl))
+	for i := 0; i < len(tmpl); i++ {
+		if tmpl[i] == '?' {
+			buf[i] = vx.Byte("in")
+		} else {
+			buf[i] = tmpl[i]
+		}
+	}
+	var chunks []int
+	switch mode {
+	case 1:
+		chunks = chunking(len(buf), len(buf)) // byte by byte
+	case 2:
+		chunks = []int{vx.Concrete(vx.IntIn("split", 1, len(buf)-1))}
+	}
+	want := vref.Classify(buf)
+	valid := want.Kind == vref.Accept
+	vx.Key("template", tmpl)
+	vx.Key("chunking", mode)
+	vx.Key("ref", want.KindName())
+	vx.Key("bom", want.BOM)
+	compare(frontEnds(buf, chunks, valid), valid)
+	sf := senFamily(buf, chunks)
+	base := sf[0]
+	vx.Assert("no-panic:"+base.name, !base.pan)
+	for _, o := range sf[1:] {
+		vx.Assert("no-panic:"+o.name, !o.pan)
+		if o.pan || base.pan {
+			continue
+		}
+		if (o.err == nil) != (base.err == nil) {
+			vx.Key("feat", senFeature(buf))
+		}
+		vx.Assert("agree-err:"+o.name, (o.err == nil) == (base.err == nil))
+		if o.err == nil && base.err == nil {
+			same := vref.TreeEqual(base.val, o.val)
+			if !same {
+				vx.Key("feat", senFeature(buf))
+			}
+			vx.Assert("agree-val:"+o.name, same)
+		}
+	}
+	vx.Cover("valid", valid)
+	vx.Cover("invalid", !want.OK())
+}
+
 func (h *builder) result() any {
 	if len(h.docs) > 0 {
 		return h.docs[len(h.docs)-1]
